@@ -2,6 +2,7 @@ import RModel.Driver.State
 import RModel.Impl.BSI
 import RModel.Impl.BSI32
 import RModel.Impl.BSI64Ops
+import RModel.Impl.BSI32Ops
 /-!
 Plane-level (L2) tracking of roaring64 bit-sliced indexes: next to the column→value map used by `Driver/Bsi.lean`,
 the checker replays `bnew` / `bset` / `bsetbig` / `bclr` / `bclone` / `bretainset` on the plane model `Impl/BSI.lean`
@@ -24,7 +25,9 @@ source (the plane count of `NewBSI(max, min)` is no longer known afterwards).
 The second half of the file does the same for 32-bit indexes (`BitSliceIndexing.BSI`, plane model `Impl/BSI32.lean`, hook
 `BitSliceIndexing.VerifBSIPlanes`): `bnew/bset/bsetmany/bclr/bclone/bretainset/bmarsh/bparor/badd/binc/bincall/bopt` are
 replayed on the planes, `bplanes` compares them, and `bcmp/beq/bsum/bminmax/bget/bexists/bcard` are also answered by the
-plane-level query algorithms.
+plane-level query algorithms.  Since `Impl/BSI32Ops.lean`: `bmarsh` goes through the modelled `MarshalBinary` / `UnmarshalBinary`
+loops (`BSI32.roundTrip`), the result index of `btwc` (`TransposeWithCounts`) is followed (`BSI32.transposeWithCounts`), and
+`beq` (every list length) / `btrans` / `bitrans` / `btwc` / `bmarsh` are also answered by that model — `Driver/Bsi32Ops.lean`.
 -/
 namespace RModel.Driver
 open RModel
@@ -139,6 +142,17 @@ def parseOp32 (s : String) : Option BSI32.Op :=
   | "LT" => some .LT | "LE" => some .LE | "EQ" => some .EQ | "GE" => some .GE | "GT" => some .GT | "RANGE" => some .RANGE
   | _ => none
 
+/-- effective worker count used by the 32-bit plane model for the script's `w` (`0` = `runtime.NumCPU()` on the Go side; the
+theorems `…_worker_independent` of `RProofs/BSI32Ops.lean` say the answer is the same for every count, and
+`transposeWithCounts_planes_order_independent` of `RProofs/BSI32OpsPlanes.lean` says the INDEX returned by `TransposeWithCounts` —
+planes and number of planes — is the same for every count and every arrival order of the batch results) -/
+def effWorkers (w : Nat) : Nat := if w == 0 then 1 else w
+
+/-- is a per-column walk of `cols` columns over the planes of `b` affordable for the checker?  (`mem` on an interval list is
+linear in its length) -/
+def affordable (b : BSI32.Index) (cols : Nat) : Bool :=
+  cols * (b.planes.foldl (fun a p => a + p.length) b.ebm.length + 1) ≤ 12000000
+
 /-- state update for commands whose subject is a 32-bit index; `none` = not such a command.
 `st` is the state AFTER the map-level family handled the line. -/
 def trackBsi32L2 (st : St) (cmd : List String) : Option St :=
@@ -189,7 +203,11 @@ def trackBsi32L2 (st : St) (cmd : List String) : Option St :=
   | ["bmarsh", t, s] =>
     if !isBsi32 st s then none else
     match idx32? st s with
-    | some b => put t (BSI32.unmarshalFrom b b)      -- the receiver `NewBSI(max, min)` never has more planes than `s`
+    | some b =>
+      -- the receiver `NewBSI(max, min)` never has more planes than `s`; the modelled loops of Impl/BSI32Ops (`roundTrip_eq`: = `unmarshalFrom`)
+      match BSI32.roundTrip b b with
+      | some r => put t r
+      | none => forget t
     | none => forget t
   | ["bmarsh", t, s, u] =>
     if !isBsi32 st s then none else
@@ -199,7 +217,10 @@ def trackBsi32L2 (st : St) (cmd : List String) : Option St :=
     | some _ => keepSt       -- skipped (same name / other kind): nothing happened
     | none =>
       match idx32? st s, (st.bsiL2[u]?).map toIdx32 with
-      | some b, some r => (put t (BSI32.unmarshalFrom r b)).map (fun st' => if t == u then st' else { st' with bsiL2 := st'.bsiL2.erase u })
+      | some b, some r =>
+        match BSI32.roundTrip r b with
+        | some x => (put t x).map (fun st' => if t == u then st' else { st' with bsiL2 := st'.bsiL2.erase u })
+        | none => (forget t).map (fun st' => { st' with bsiL2 := st'.bsiL2.erase u })
       | _, _ => (forget t).map (fun st' => { st' with bsiL2 := st'.bsiL2.erase u })
   | "bparor" :: s :: w :: ts =>
     if !isBsi32 st s then none else
@@ -233,6 +254,20 @@ def trackBsi32L2 (st : St) (cmd : List String) : Option St :=
     | some b => put s (BSI32.increment b (some b.ebm))
     | none => keepSt
   | ["bopt", s] => if !isBsi32 st s then none else keepSt        -- RunOptimize: representation only
+  | ["btwc", t, s, w, f, g] =>
+    if !isBsi32 st s then none else
+    match w.toNat? with
+    | some wn =>
+      if wn > 64 || g != "-" then keepSt           -- skipped by the harness
+      else match idx32? st s with
+        | some b =>
+          match fs32? st b f with
+          | some fs =>
+            if affordable b (2 * BSet.card (fs.getD b.ebm)) then put t (BSI32.transposeWithCounts b (effWorkers wn) fs)
+            else forget t
+          | none => keepSt                         -- undefined found set: skipped
+        | none => forget t
+    | none => keepSt
   | "btwc" :: t :: s :: _ => if !isBsi32 st s then none else forget t
   | _ => none
 
